@@ -149,7 +149,7 @@ class Model(ClockModel):
 
 
 # ---------------------------------------------------------------------------
-GRID = st.integers(0, 32).map(lambda x: x / 4)
+GRID = st.integers(-6, 32).map(lambda x: x / 4)
 DELAYS = [0, 0.25, 0.5, 1, 1, 2, 3, 5]
 CTL_TIMES = [0.625, 1.125, 1.625, 2.375, 3.125, 4.625]
 
@@ -288,11 +288,13 @@ def programs(draw, tier, connectives=False):
             else:
                 ctl_steps.append({'op': 'tset', 'i': draw(st.integers(0, ntr - 1)), 'v': draw(st.integers(0, 3))})
     ctl = {'name': 'ctl', 'steps': ctl_steps}
-    prog = {'start': 0, 'objs': {'flags': nflags, 'tracked': [draw(st.integers(0, 3)) for _ in range(ntr)],
-                                 'conds': named},
+    prog = {'start': draw(st.sampled_from([0, 0, 0, -3, -1.5])),
+            'objs': {'flags': nflags, 'tracked': [draw(st.integers(0, 3)) for _ in range(ntr)], 'conds': named},
             'roots': [ctl, r0]}
     if draw(st.integers(0, 3)) == 0:
         prog['till'] = draw(st.sampled_from([0, 0.5, 1, 2, 3, 4.625, 6, 20]))
+        if prog['till'] < prog['start']:
+            prog['till'] = 0
     return prog
 
 
